@@ -24,7 +24,7 @@ func TestVerif(t *testing.T) {
 		ID:    "C16",
 		Level: "model_checking",
 		Rule: "auth.Client over an in-process transport hosting two registries (a.example, and b.example or - same host name, other port - a.example:8443) and their token realms (one on the registry's own host, one on a foreign host), each with distinct recognisable secrets. " +
-			"sequential: every request sequence of length <= 3 (thorough 4) over {registry A|B} x {scope hint r1:pull | r2:pull,push | none} plus a request that registry A redirects to registry B and the base endpoint /v2/ of registry A (whose Bearer challenge names no scope) with and without a scope hint, for every pair of per-registry auth modes {Basic, Bearer distribution, Bearer OAuth2 refresh token, Bearer OAuth2 password+ForceAttemptOAuth2, access token}, " +
+			"sequential: every request sequence of length <= 3 (thorough 4) over {registry A|B} x {scope hint r1:pull | r2:pull,push | none} plus a request that registry A redirects to registry B and the base endpoint /v2/ of registry A (whose Bearer challenge names no scope) with and without a scope hint, for every pair of per-registry auth modes {Basic, Bearer distribution, Bearer OAuth2 refresh token, Bearer OAuth2 password+ForceAttemptOAuth2, access token; registry B also: a Bearer challenge that names no realm (outcome not judged, only what travelled)}, " +
 			"every cache flavour {none, shared, single-context}, a scheme change of registry A after request {never,1,2}, and 3 renderings of the challenge scope string (order / duplication / wildcard action). " +
 			"concurrent: 2-3 goroutines through one cache (same host and scope, same host different scopes, different hosts, first caller cancelled during the token fetch) under every schedule within D<=2. " +
 			"Oracle at the innermost transport: every outgoing request is scanned (headers, query, body) for every secret of the other registry; passwords/refresh tokens only to the registry that challenged Basic or to the realm that registry advertised; " +
@@ -48,6 +48,7 @@ type regSpec struct {
 	user, pass     string
 	refresh, token string // refresh token, static access token
 	mode           string // basic | dist | oauth-refresh | oauth-pass | access
+	askedBasic     bool   // this registry has sent a Basic challenge at some point
 }
 
 type issued struct {
@@ -90,7 +91,7 @@ func (w *world) credential(_ context.Context, hostport string) (auth.Credential,
 		return auth.EmptyCredential, nil
 	}
 	switch r.mode {
-	case "basic", "dist", "oauth-pass":
+	case "basic", "dist", "oauth-pass", "norealm":
 		return auth.Credential{Username: r.user, Password: r.pass}, nil
 	case "oauth-refresh":
 		return auth.Credential{RefreshToken: r.refresh}, nil
@@ -203,6 +204,10 @@ func resp(req *http.Request, status int, h http.Header, body string) *http.Respo
 
 // RoundTrip is the innermost transport: the leak oracle lives here.
 func (w *world) RoundTrip(req *http.Request) (*http.Response, error) {
+	if (req.URL.Scheme != "http" && req.URL.Scheme != "https") || req.URL.Host == "" {
+		// net/http's own transport refuses such a request before anything leaves the process
+		return nil, fmt.Errorf("unsupported protocol scheme %q", req.URL.Scheme)
+	}
 	vs.Pt("http " + req.URL.Host + req.URL.Path)
 	var body string
 	if req.Body != nil && req.Body != http.NoBody {
@@ -248,12 +253,18 @@ func (w *world) RoundTrip(req *http.Request) (*http.Response, error) {
 		return w.realm(req, r, body), nil
 	}
 	// passwords and refresh tokens never travel to a registry that did not challenge with Basic
-	if r.mode != "basic" && (strings.Contains(hay, r.pass) || strings.Contains(hay, r.refresh)) {
+	if r.mode != "basic" && (strings.Contains(hay, r.pass) || strings.Contains(hay, r.refresh) ||
+		// (a request that this registry redirects elsewhere may come back with the Basic credential the
+		// redirect target asked for: that challenge reached the client as this registry's answer)
+		!r.askedBasic && !strings.HasPrefix(req.URL.Path, "/v2/rd/") && strings.Contains(hay, base64.StdEncoding.EncodeToString([]byte(r.user+":"+r.pass)))) {
 		w.fails = append(w.fails, fmt.Sprintf("leak: password/refresh token of %s sent to the registry itself although it never asked for Basic", owner))
 	}
 	if owner == "a.example" && strings.HasPrefix(req.URL.Path, "/v2/rd/") {
 		// registry A hands this repository over to registry B (e.g. a mirror): a cross-host redirect
 		w.log = append(w.log, fmt.Sprintf("%s a.example%s -> 307 "+hostB+" auth=%q", req.Header.Get("X-Verif-Req"), req.URL.Path, trunc(req.Header.Get("Authorization"))))
+		if b := w.regs[hostB]; b != nil && b.mode == "basic" {
+			r.askedBasic = true // the target's Basic challenge reaches the client as the answer to its request to A
+		}
 		return resp(req, 307, http.Header{"Location": {"https://" + hostB + req.URL.Path}}, ""), nil
 	}
 	id := req.Header.Get("X-Verif-Req")
@@ -267,6 +278,7 @@ func (w *world) RoundTrip(req *http.Request) (*http.Response, error) {
 		if authz == "Basic "+base64.StdEncoding.EncodeToString([]byte(r.user+":"+r.pass)) {
 			return resp(req, 200, nil, "ok"), nil
 		}
+		r.askedBasic = true // from now on the Basic credential may come back to this registry (a remembered scheme)
 		return resp(req, 401, http.Header{"Www-Authenticate": {`Basic realm="` + owner + `"`}}, ""), nil
 	default:
 		if strings.HasPrefix(authz, "Bearer ") {
@@ -298,6 +310,11 @@ func (w *world) RoundTrip(req *http.Request) (*http.Response, error) {
 					}
 				}
 			}
+		}
+		if r.mode == "norealm" {
+			// a Bearer challenge that advertises no realm: there is nowhere the client may take its secrets
+			w.asked[id] = ""
+			return resp(req, 401, http.Header{"Www-Authenticate": {fmt.Sprintf(`Bearer service="%s"`, owner)}}, ""), nil
 		}
 		if need == nil {
 			// the base endpoint asks for a token without naming a scope
@@ -444,7 +461,7 @@ func jobs(tier string) []driver.Job {
 		depth = 4
 	}
 	for _, ma := range modes {
-		for _, mb := range modes {
+		for _, mb := range append(append([]string{}, modes...), "norealm") {
 			for _, cache := range []string{"none", "shared", "single"} {
 				ma, mb, cache := ma, mb, cache
 				name := fmt.Sprintf("seq/A=%s/B=%s/cache=%s/depth%d", ma, mb, cache, depth)
@@ -503,6 +520,18 @@ func seq(c *driver.Ctx, ma, mb, cache string, depth int) (func(), func(*vs.Resul
 			}
 			before := w.fetches
 			rs, err := doReq(context.Background(), cl, id, k)
+			if k.host == "b.example" && mb == "norealm" {
+				// a registry whose Bearer challenge names no realm cannot be authenticated to: whatever the
+				// request ends with, only what travelled is judged
+				if err == nil {
+					rs.Body.Close()
+				}
+				if len(w.fails) > 0 {
+					fail = &driver.Fail{Sig: sig(w.fails[0]), Detail: detail(w, hist) + "\n" + strings.Join(w.fails, "\n")}
+					return
+				}
+				continue
+			}
 			if err != nil {
 				fail = &driver.Fail{Sig: "request with valid credentials failed", Detail: detail(w, hist) + "\n" + err.Error()}
 				return
